@@ -654,11 +654,16 @@ Record link_fields := mkLF {
   lf_ports : list (bytes + Z);                (* range text, or port number to be printed in decimal *)
   lf_protos : list Z }.
 
-Definition export_port (b : port_binding) : bytes + Z :=
+(* as of the pinned commit: the range text whenever there is one *)
+Definition export_port_v0 (b : port_binding) : bytes + Z :=
   if negb (is_empty (getb (pb_range b))) then inl (getb (pb_range b)) else inr (getz (pb_port b)).
+(* with the fix "share link export uses the port of a binding that has both a port and a port range":
+   the same choice as FlatPortBindings *)
+Definition export_port (b : port_binding) : bytes + Z :=
+  if negb (Z.eqb (getz (pb_port b)) 0) then inr (getz (pb_port b)) else inl (getb (pb_range b)).
 
 (* None = an error is returned *)
-Definition export_server (p : profile) (s : server_ep) : option link_fields :=
+Definition export_server_with (ep : port_binding -> bytes + Z) (p : profile) (s : server_ep) : option link_fields :=
   let u := puser p in
   if is_empty (pname p) || is_empty (uname u) || is_empty (getb (u_pw u)) then None
   else match (if negb (is_empty (se_domain s)) then Some (se_domain s, se_domain_is_ip s)
@@ -669,9 +674,12 @@ Definition export_server (p : profile) (s : server_ep) : option link_fields :=
            if is_empty_list (se_bindings s) then None
            else Some (mkLF (uname u) (getb (u_pw u)) host isip (pname p) (p_mtu p) (p_mux p) (p_hs p)
                            (match p_tp p with Some t => Some (tp_raw t) | None => None end)
-                           (map export_port (se_bindings s))
+                           (map ep (se_bindings s))
                            (map (fun b => getz (pb_proto b)) (se_bindings s)))
        end.
+
+Definition export_server := export_server_with export_port.
+Definition export_server_v0 := export_server_with export_port_v0.
 
 (* what the importer's library calls answer on the exported link, provided the library steps are faithful
    (url.String then url.Parse returns the same user, password, host and query values in order; base64 and
